@@ -327,7 +327,81 @@ func keySeqCase(r *Rng, a, b *keyPair, zone [][]byte, byTyp map[uint16]tdef, mod
 	}
 }
 
+// keyTagCarryCase: real keys whose RFC 4034 Appendix B checksum meets the corners of its last step: the low
+// 16 bits plus the carries overflow 16 bits again (that second carry is DISCARDED by the RFC), the sum is
+// exactly 0xFFFF, the high part is exactly 1. The flags are searched so that the corner is hit (ZONE bit
+// kept); the RRSIG carries the RFC tag computed here, not KeyTag(): it must verify.
+func keyTagCarryCase(r *Rng, keys []*keyPair) {
+	done := map[uint8]int{}
+	for _, a := range keys {
+		alg := a.k.Algorithm
+		if done[alg] >= 2 {
+			continue
+		}
+		for _, corner := range []string{"second-carry", "sum-ffff", "low-zero"} {
+			found := -1
+			for f := 0; f < 0x10000 && found < 0; f++ {
+				if f&256 == 0 || f&128 != 0 { // a zone key that is not revoked
+					continue
+				}
+				rd := append([]byte{byte(f >> 8), byte(f), 3, alg}, a.pub...)
+				var ac uint32
+				for i, b := range rd {
+					if i&1 == 0 {
+						ac += uint32(b) << 8
+					} else {
+						ac += uint32(b)
+					}
+				}
+				lo, hi := ac&0xffff, ac>>16
+				switch corner {
+				case "second-carry":
+					if lo+hi > 0xffff {
+						found = f
+					}
+				case "sum-ffff":
+					if lo+hi == 0xffff {
+						found = f
+					}
+				case "low-zero":
+					if lo == 0 && hi > 0 {
+						found = f
+					}
+				}
+			}
+			if found < 0 {
+				st["keytag_corner_not_reachable_"+corner]++
+				continue
+			}
+			k := dns.Copy(a.k).(*dns.DNSKEY)
+			k.Flags = uint16(found)
+			want := refKeyTag(k.Flags, 3, alg, a.pub)
+			in := map[string]string{"key": k.String(), "corner": corner, "rfc_tag": Itoa(int(want))}
+			st["keytag_corner_checked"]++
+			if got := k.KeyTag(); got != want {
+				Viol("C10/KeyTag/corner-"+corner, "KeyTag() = "+Itoa(int(got))+", RFC 4034 Appendix B gives "+Itoa(int(want)), in)
+			}
+			rrset := []dns.RR{&dns.A{Hdr: dns.RR_Header{Name: k.Hdr.Name, Rrtype: dns.TypeA, Class: 1, Ttl: 60}, A: []byte{192, 0, 2, 1}}}
+			sig := &dns.RRSIG{KeyTag: want, SignerName: k.Hdr.Name, Algorithm: alg, Inception: 1700000000, Expiration: 1800000000}
+			if err := sig.Sign(a.priv, rrset); err != nil {
+				st["keytag_corner_sign_failed"]++
+				continue
+			}
+			sig.KeyTag = want
+			if err := sig.Verify(k, rrset); err != nil {
+				Viol("C10/Verify/rfc-key-tag-rejected/"+corner, "an RRSIG carrying the RFC 4034 Appendix B tag of its key does not verify: "+err.Error(), in)
+			}
+			sig.KeyTag = want + 1
+			if err := sig.Verify(k, rrset); err == nil {
+				Viol("C10/Verify/wrong-key-tag-accepted/"+corner, "an RRSIG whose key tag is one more than the key's RFC tag verifies", in)
+			}
+		}
+		done[alg]++
+	}
+}
+
 func runRound5(r *Rng, tier string, keys []*keyPair) {
+	keyTagCarryCase(r, keys)
 	byTyp := map[uint16]tdef{}
 	for _, td := range tdefs {
 		byTyp[td.typ] = td
